@@ -868,12 +868,38 @@ func runCase(c Case) {
 			}
 		}
 	}
+	// the store's book-keeping: Exists for every (title, content) pushed or named as a layer
+	ex := ""
+	query := func(title string, tag int) {
+		b := []byte(strconv.Itoa(tag))
+		d := ocispec.Descriptor{MediaType: "application/vnd.verif.blob", Digest: digest.FromBytes(b), Size: int64(len(b))}
+		if title != "" {
+			d.Annotations = map[string]string{ocispec.AnnotationTitle: title}
+		}
+		if ok, err := store.Exists(ctx, d); err == nil && ok {
+			ex += "1"
+		} else {
+			ex += "0"
+		}
+	}
+	for _, p := range c.Pushes {
+		switch p.Kind {
+		case "B":
+			query(p.Title, p.Tag)
+		case "M":
+			for _, l := range p.Layers {
+				query(l.Title, l.Tag)
+			}
+		default:
+			query(p.Title, 41)
+		}
+	}
 	os.Chdir("/")
 	store.Close()
 	if lastListing == "" {
 		lastListing = listing()
 	}
-	obs := steps + "|" + lastListing
+	obs := steps + "|" + lastListing + "|X" + ex
 	line := modelLine(c, modelCfg)
 	run.Case(id, line, obs)
 	run.Count("pushes=" + strconv.Itoa(len(c.Pushes)))
@@ -1643,7 +1669,7 @@ func main() {
 		enumerate(entryAlphabet([]string{"t/a", "t/a/c"}, []string{"..", "a", "a/../../victim", wdDir + "/t/a"}), 3, nil)
 	}
 	r := run.Rand
-	n := run.Scale(900, 16000)
+	n := run.Scale(900, 36000)
 	for i := 0; i < n; i++ {
 		if i%4 == 0 {
 			runCase(stamped(r, genTemplate(r)))
